@@ -33,6 +33,8 @@ type pairEvent struct {
 	B      []obsRec `json:"b"`
 	ModeA  string   `json:"modea"`
 	ModeB  string   `json:"modeb"`
+	Partner string  `json:"partner"` // reuse pairs: the session that shared the persister
+	Flush  bool     `json:"flush"`
 }
 
 func hpick(seed int64, req, call, n int) int {
@@ -74,9 +76,10 @@ func serve(p *Program, sid string, mode string, store dbLike, inputs []string, p
 }
 
 // serveReuse serves two sessions alternately (A0 B0 A1 B1 ...) with a fresh engine per request but through ONE Persister
-// object over one store, as an application that keeps its persister does - WithFlush, which promises that "the state and
-// memory will be empty" after every successful Save (without it a kept persister still holds the previous session).
-func serveReuse(p *Program, sids [2]string, store dbLike, inputs [2][]string, pseeds [2]int64, flush bool, out *ndw, stats *viseStats) [2][]obsRec {
+// object over one store, as an application that keeps its persister does: WithFlush (which promises that "the state and
+// memory will be empty" after every successful Save), or without it for sessions the store already has.
+func serveReuse(p *Program, sids [2]string, store dbLike, inputs [2][]string, pseeds [2]int64, flush bool, out *ndw, stats *viseStats, explicit ...[2][][]int) [2][]obsRec {
+	var cur [2][]int // explicit external results of the current request (TLC histories), if given
 	pe := persist.NewPersister(store)
 	if flush {
 		pe = pe.WithFlush()
@@ -87,6 +90,14 @@ func serveReuse(p *Program, sids [2]string, store dbLike, inputs [2][]string, ps
 		k := k
 		rec := &sessRec{prog: p, sid: sids[k], out: out, stats: stats}
 		hosts[k] = newHost(p, rec, "R", store, func(sym string, n int) int {
+			if len(explicit) > 0 {
+				if len(cur[k]) == 0 {
+					return 0
+				}
+				i := cur[k][0]
+				cur[k] = cur[k][1:]
+				return i
+			}
 			i := hpick(pseeds[k], acc[k], call[k], n)
 			call[k]++
 			if i < 0 {
@@ -109,6 +120,18 @@ func serveReuse(p *Program, sids [2]string, store dbLike, inputs [2][]string, ps
 				continue
 			}
 			in := inputs[k][pos[k]]
+			// without WithFlush a kept persister still holds the session it served last, and a session that is NEW to the
+			// store would be created from that content: the kept persister is used for sessions the store already has
+			// (the first request of each session goes through a persister of its own)
+			if !flush && pos[k] == 0 {
+				hosts[k].mode = "P"
+			} else {
+				hosts[k].mode = "R"
+			}
+			cur[k] = nil
+			if len(explicit) > 0 && pos[k] < len(explicit[0][k]) {
+				cur[k] = append([]int{}, explicit[0][k][pos[k]]...)
+			}
 			pos[k]++
 			call[k] = 0
 			ev := hosts[k].request(in)
@@ -186,7 +209,7 @@ func cmdVisePairs(args []string) error {
 			// C07: two sessions served alternately through one reused Persister object vs each with fresh persisters
 			if prev != nil {
 				rstore, rclean := newStoreC(st, sid+"r")
-				r := serveReuse(p, [2]string{prev.sid + ".R", sid + ".R"}, rstore, [2][]string{prev.inputs, inputs}, [2]int64{prev.pseed, pseed}, true, out, stats)
+				r := serveReuse(p, [2]string{prev.sid + ".R", sid + ".R"}, rstore, [2][]string{prev.inputs, inputs}, [2]int64{prev.pseed, pseed}, si%4 < 2, out, stats)
 				rclean()
 				out.put(pairEvent{Ev: "pair", Kind: "reuse", Sid: prev.sid, Store: st, Inputs: encAll(prev.inputs), Extra: encAll(inputs), A: prev.b, B: r[0], ModeA: "P", ModeB: "R"})
 				out.put(pairEvent{Ev: "pair", Kind: "reuse", Sid: sid, Store: st, Inputs: encAll(inputs), Extra: encAll(prev.inputs), A: b, B: r[1], ModeA: "P", ModeB: "R"})
@@ -297,6 +320,7 @@ func cmdVisePairsHist(args []string) error {
 	}
 	defer out.close()
 	stores := splitComma(args[3])
+	pairall := len(args) > 4 && args[4] == "pairall"
 	vm.VerifHook = viseHook
 	stats := &viseStats{Pairs: map[string]int{}}
 	if p.MaxLevel > 0 {
@@ -307,6 +331,12 @@ func cmdVisePairsHist(args []string) error {
 	null, _ := newNdw(os.DevNull)
 	defer null.close()
 	n := 0
+	type pastHist struct {
+		sid string
+		h   history
+		bb  []obsRec
+	}
+	var past []pastHist
 	err = eachLine(args[1], func(b []byte) error {
 		var h history
 		if err := json.Unmarshal(b, &h); err != nil {
@@ -320,6 +350,31 @@ func cmdVisePairsHist(args []string) error {
 		bb := servePicks(p, sid+".P", "P", bs, h.Inputs, h.Picks, null, stats)
 		cleanup()
 		out.put(pairEvent{Ev: "pair", Kind: "mode", Sid: sid, Store: st, Inputs: encAll(h.Inputs), Extra: []string{}, A: a, B: bb, ModeA: "L", ModeB: "P"})
+		// every third history is also served alternately with an earlier, different history through ONE kept Persister
+		// (flushed, or unflushed for sessions the store already has) and compared with its per-request-persister transcript
+		past = append(past, pastHist{sid, h, bb})
+		if n%3 == 0 && len(past) > 11 {
+			q := past[len(past)-12]
+			rs, rclean := newStoreC(st, sid+"r")
+			r := serveReuse(p, [2]string{q.sid + ".R", sid + ".R"}, rs, [2][]string{q.h.Inputs, h.Inputs}, [2]int64{}, n%2 == 0, null, stats, [2][][]int{q.h.Picks, h.Picks})
+			rclean()
+			out.put(pairEvent{Ev: "pair", Kind: "reuse", Sid: q.sid, Store: st, Inputs: encAll(q.h.Inputs), Extra: encAll(h.Inputs), A: q.bb, B: r[0], ModeA: "P", ModeB: "R", Partner: sid, Flush: n%2 == 0})
+			out.put(pairEvent{Ev: "pair", Kind: "reuse", Sid: sid, Store: st, Inputs: encAll(h.Inputs), Extra: encAll(q.h.Inputs), A: bb, B: r[1], ModeA: "P", ModeB: "R", Partner: q.sid, Flush: n%2 == 0})
+		}
+		if pairall && n%2 == 0 && len(past) >= 2 {
+			// replay form: the file holds pairs of histories; each pair shares a persister, flushed and unflushed
+			q := past[len(past)-2]
+			for _, fl := range []bool{true, false} {
+				rs, rclean := newStoreC(st, sid+"r")
+				r := serveReuse(p, [2]string{q.sid + ".R", sid + ".R"}, rs, [2][]string{q.h.Inputs, h.Inputs}, [2]int64{}, fl, null, stats, [2][][]int{q.h.Picks, h.Picks})
+				rclean()
+				out.put(pairEvent{Ev: "pair", Kind: "reuse", Sid: q.sid, Store: st, Inputs: encAll(q.h.Inputs), Extra: encAll(h.Inputs), A: q.bb, B: r[0], ModeA: "P", ModeB: "R", Partner: sid, Flush: fl})
+				out.put(pairEvent{Ev: "pair", Kind: "reuse", Sid: sid, Store: st, Inputs: encAll(h.Inputs), Extra: encAll(q.h.Inputs), A: bb, B: r[1], ModeA: "P", ModeB: "R", Partner: q.sid, Flush: fl})
+			}
+		}
+		if len(past) > 16 {
+			past = past[1:]
+		}
 		return nil
 	})
 	summary(map[string]any{"pairs": n, "requests": stats.Requests, "iterations": stats.Iterations, "panics": stats.Panics, "events": out.n})
